@@ -28,3 +28,4 @@ pub open spec fn ents_acc(acc: Seq<SnapEntry>, tail: Option<(Seq<SnapEntry>, Seq
 }
 /// no later entry of the list has the same key bytes (the entry that survives `insert` into a map)
 pub open spec fn no_later_dup(es: Seq<SnapEntry>, i: int) -> bool { forall|j: int| i < j < es.len() ==> (#[trigger] es[j]).0 != es[i].0 }
+pub open spec fn ver_of(v: Option<NonZeroU64>) -> u64 { match v { Some(x) => x.get(), None => 0 } }
